@@ -61,6 +61,11 @@ CHECKS = {
          'Input half: every string of up to 3 tokens over a 16-token interaction-prone subset and up to 2 tokens over the full 38-token markup alphabet (epytext/reST/google/numpy markup fragments, field tags, control characters, lone surrogate, U+FFFF, U+00A0, CR) x 5 docformats x {process-types} x 5 object kinds (thorough: up to 3 over all 38 tokens, up to 4 over the subset: ~600 k docstrings) is installed through Documentable.setDocstring and rendered (parsed form, body, summary, toc, all flattened). Nothing may raise or hang; when the parser or the conversion gives up (decided by calling them directly) the object must be reported and the complete original text shown; problems docutils recovers from must be reported; a sibling object must render byte-identically. Fault half: RuntimeError/AssertionError/RecursionError/KeyError injected at each of 29 parser, to_node/to_stan, node2stan, linker, summary, toc and type-renderer entry points x 5 formats x {process-types}: no escape from body, summary or toc; body faults are reported and the text stays visible.',
          'Trusted: direct parser/to_stan calls as the definition of "gave up"; the token alphabet; harness-side patching as the fault model (an exception at function entry).',
          'DESIGN.md section 5, C08'),
+ 'C09': ('exploration',
+         'exhaustive enumeration of documents from a structure grammar (blocks x fields), serialised to each docformat and rendered by the real pipeline; oracle = the generator\'s intended text (unique word tokens)',
+         'Documents are all sequences of up to 2 (thorough 3) blocks from a 20-variant grammar (paragraphs with each inline form, bullet lists with one/two items, nested list, second paragraph in an item, enumerated list, literal / doctest / code blocks, section, admonition, versionchanged/deprecated/versionadded directives with and without body, definition list, block quote) combined with no field, each of 17 fields (thorough: ordered pairs of fields), serialised to epytext, reST, google and numpy and installed as real indented triple-quoted literals. Every word is a unique token, so the oracle needs no expected strings: description tokens appear once each and in source order, literal/doctest/code blocks are character-exact after dedent, no markup residue stays in prose, each field\'s tokens sit in the table row of its entry (Parameters/a, Returns, Raises/ValueError, ...) or are reported; plaintext is reproduced exactly; @ivar/@cvar/@var fields show on their attribute. Thorough: 354 899 documents.',
+         'Trusted: the serializers (validated: a parse error on a generated document is itself flagged); the mapping field -> table entry.',
+         'DESIGN.md section 5, C09'),
 }
 
 
